@@ -492,3 +492,22 @@ impl ResolvedInputRegion {
         }
     }
 }
+
+/// Verification hooks (only with `--cfg desert_verif`): drive the region machine directly.
+#[cfg(desert_verif)]
+pub mod verif_hooks {
+    use super::{DeserializationContext, InputRegion};
+
+    pub fn push_region(context: &mut DeserializationContext<'_>, start: usize, length: usize) {
+        context.push_region(InputRegion::new(start, length));
+    }
+
+    pub fn pop_region(context: &mut DeserializationContext<'_>) -> (usize, usize, usize) {
+        let region = context.pop_region();
+        (region.start, region.pos, region.end)
+    }
+
+    pub fn pos(context: &DeserializationContext<'_>) -> usize {
+        context.pos()
+    }
+}
